@@ -818,7 +818,15 @@ async fn d16w_transient_wal_append_failure() {
 		let r3 = tx.commit().await;
 		println!("D16w commit after the failed one: {:?}", r3);
 		if r3.is_err() {
-			// a sticky error would be an acceptable outcome (property C15 allows it)
+			// a sticky error is an acceptable outcome (property C15 allows it): the store refuses further commits
+			// until it is reopened; the reopen below must then show k1 and nothing of the failed commit
+			let _ = tokio::time::timeout(std::time::Duration::from_secs(10), tree.close()).await;
+			let tree = Tree::new(Arc::clone(&opts)).expect("D16w: reopen fails after the sticky WAL error");
+			let tx = tree.begin().unwrap();
+			assert_eq!(tx.get(b"k1").unwrap().as_deref(), Some(&b"v1"[..]));
+			assert_eq!(tx.get(b"k2").unwrap(), None, "D16w: the failed commit is visible after recovery");
+			drop(tx);
+			put(&tree, b"k4", b"v4").await; // and the store works again
 			return;
 		}
 		tree.close().await.unwrap();
